@@ -65,7 +65,7 @@ func traceLen() (int, int) { return int(traceN), int(traceLost) }
 
 func siteName(s int) string {
 	if s >= MaxSites {
-		names := [...]string{"op-boundary", "after-pool-get", "before-pool-put", "after-lock", "before-unlock", "callback", "before-lock", "after-unlock", "map-order", "task-start"}
+		names := [...]string{"op-boundary", "after-pool-get", "before-pool-put", "after-lock", "before-unlock", "callback", "before-lock", "after-unlock", "map-order", "task-start", "channel-op"}
 		if s-MaxSites < len(names) {
 			return "seam:" + names[s-MaxSites]
 		}
